@@ -20,6 +20,8 @@ STUBS = [
     "math/big.Int (concrete values only), zerolog (Panic->panic, Fatal->exit, others no-op)",
     "os.* / filepath.Abs (virtual file system + event log)",
     "foreign package initialisers not executed; participle/koanf/template objects opaque",
+    "yaml.v3 (*Node).Decode/DecodeWithOptions: dispatch to the interpreted UnmarshalYAML of the target, pointer allocation, null, scalar->int (validated by the native replays against the real library)",
+    "participle Parser[T].ParseString: evaluated on concrete strings by a native oracle process built from the tree under test (cmd/zzverifsrv overlay); symbolic strings are forked over their finite domains first",
 ]
 
 
@@ -36,15 +38,40 @@ def ensure_engine():
     subprocess.run(["go", "build", "-o", "gosym", "."], cwd=ENGINE_DIR, env=GOENV, check=True)
 
 
-def run_gosym(entry, args=(), extra=(), timeout=3000):
+def build_oracle(tmp):
+    """Build the native oracle (harness/go/cmd/zzverifsrv: participle-generated parsers on concrete strings)
+    from the tree under test; returns the binary path."""
+    rep = overlay_files(tmp)
+    ov = os.path.join(tmp, "oracle_overlay.json")
+    json.dump({"Replace": rep}, open(ov, "w"))
+    binp = os.path.join(tmp, "zzverifsrv")
+    p = subprocess.run(["go", "build", "-overlay", ov, "-o", binp, "./cmd/zzverifsrv"], cwd=TOOLING, env=GOENV,
+                       capture_output=True, text=True, timeout=600)
+    if p.returncode != 0 or not os.path.exists(binp):
+        raise RuntimeError("native oracle build failed: " + (p.stdout + p.stderr)[-3000:])
+    return binp
+
+
+def run_gosym(entry, args=(), extra=(), timeout=3000, oracle=False):
     ensure_engine()
+    if oracle:
+        otmp = tempfile.mkdtemp(prefix="gosym_oracle_")
+        try:
+            env = dict(GOENV, VERIF_ORACLE_BIN=build_oracle(otmp))
+            return _run_gosym(entry, args, extra, timeout, env)
+        finally:
+            shutil.rmtree(otmp, ignore_errors=True)
+    return _run_gosym(entry, args, extra, timeout, GOENV)
+
+
+def _run_gosym(entry, args, extra, timeout, env):
     out = tempfile.NamedTemporaryFile(prefix="gosym_", suffix=".json", delete=False).name
     cmd = [GOSYM, "-dir", TOOLING, "-harness", HARNESS, "-entry", MOD + entry, "-out", out,
-           "-workers", str(min(16, os.cpu_count() or 4))]
+           "-workers", os.environ.get("VERIF_WORKERS") or str(min(16, os.cpu_count() or 4))]
     if args:
         cmd += ["-args", ",".join(str(a) for a in args)]
     cmd += list(extra)
-    p = subprocess.run(cmd, env=GOENV, capture_output=True, text=True, timeout=timeout)
+    p = subprocess.run(cmd, env=env, capture_output=True, text=True, timeout=timeout)
     try:
         if p.returncode != 0:
             raise RuntimeError("gosym failed: " + (p.stderr or p.stdout)[-2000:])
@@ -170,13 +197,13 @@ def _short_model(events):
 
 
 def gosym_part(prop, tier, seed, name, entry, args_quick=(), args_thorough=None, extra_quick=(), extra_thorough=None,
-               key_fn=None, assumptions=(), required_sites=(), desc="", **kw):
+               key_fn=None, assumptions=(), required_sites=(), desc="", oracle=False, **kw):
     """Generic gosym part.  key_fn(assert_id, events, outs) -> stable violation key."""
     t0 = time.time()
     part = vcommon.new_part(name, "gosym")
     args = args_quick if tier == "quick" or args_thorough is None else args_thorough
     extra = extra_quick if tier == "quick" or extra_thorough is None else extra_thorough
-    rr = run_gosym(entry, args, extra)
+    rr = run_gosym(entry, args, extra, oracle=oracle)
     part["functions_encoded"] = ["%s (%d instr executed)" % (k, v) for k, v in sorted(rr["functions"].items())]
     part["bounds"] = dict(rr["bounds"], entry=entry, harness_args=list(args), description=desc)
     part["stubs"] = STUBS
